@@ -27,11 +27,70 @@ def name_has(names, suffixes):
     return False
 
 
-def cdr_taint(fn):
+def car_derived(fn, carlike=()):
+    """Locals that *must* hold (a wrapper of / a reference into) the car of a cell: every definition is a car
+    accessor call, a call of a local car-like helper, a transparent adaptor applied to such a local, or a copy /
+    reference / cast of one.  The cdr of such a cell is part of an *element* (one nesting level down), not the
+    successor on the spine being walked."""
+    defs = common.defs_of(fn)
+    der = set()
+    changed = True
+
+    def src_local(d):
+        bi, si, x = d
+        if si == "term":
+            names = F.callee_names(x)
+            if name_has(names, CAR_KILLS) or (x["callee"].get("resolved") or x["callee"].get("path")) in carlike:
+                return True
+            if name_has(names, TRANSPARENT) and x["args"]:
+                l = common.place_local(x["args"][0])
+                return l in der
+            return False
+        k = x["k"]
+        if k in ("use", "cast"):
+            op = x["op"]
+            return op.get("c") in ("copy", "move") and op["pl"]["l"] in der
+        if k in ("ref", "rawptr"):
+            return x["pl"]["l"] in der
+        return False
+
+    while changed:
+        changed = False
+        for l, ds in defs.items():
+            if l in der or not ds:
+                continue
+            if all(src_local(d) for d in ds):
+                der.add(l)
+                changed = True
+    return der
+
+
+def carlike_fns(crate):
+    """Local helpers whose result is derived from the car of their argument only (e.g. `entry_pair(cell)` =
+    `cell.car().as_cons().ok_or_else(..)`)."""
+    like = set()
+    for _ in range(4):
+        new = set()
+        for f in crate.fns:
+            if f.kind == "closure" or f.path in like:
+                continue
+            if not any(name_has(F.callee_names(t), CAR_KILLS) or (t["callee"].get("resolved") or t["callee"].get("path")) in like
+                       for _, t in f.calls()):
+                continue
+            if 0 in car_derived(f, like) and 0 not in cdr_taint(f, like):
+                new.add(f.path)
+        if not new:
+            break
+        like |= new
+    return like
+
+
+def cdr_taint(fn, carlike=()):
     """Flow-insensitive: set of locals that may hold (a pointer to / a wrapper of) the
     cdr of a cons cell.  Returns (tainted locals, {local: receiver local of the cdr call})."""
     tainted = {}
     changed = True
+    car_der = car_derived(fn, carlike)
 
     def op_taint(op):
         if op.get("c") in ("copy", "move"):
@@ -80,7 +139,8 @@ def cdr_taint(fn):
                     src = None
                 elif name_has(names, CDR_SOURCES) or name_has(names, PAIR_SOURCES):
                     recv = common.place_local(t["args"][0]) if t["args"] else None
-                    src = ("call", recv, bi)
+                    # the cdr of an element cell (reached through a car) is payload, not the spine's successor
+                    src = None if recv in car_der else ("call", recv, bi)
                 elif name_has(names, TRANSPARENT):
                     for a in t["args"][:1]:
                         src = op_taint(a)
